@@ -38,7 +38,7 @@ TEXTS["C03"] = dict(
                "point (biased to: before a store write, torn inside it, after it but before approval, between approval and Sign), restarts the real stack on the surviving directory image and "
                "continues with conflict-seeking requests, up to 3 crashes per run; oracles: no conflicting pair in the ledger of released signatures across incarnations, export after each "
                "restart covers every released signature, when Sign is invoked the live store and (sampled) a fresh process on a copy of the directory already cover the duty, with "
-               "GOMAXPROCS=1 the value log must not grow after a storage call has returned, SyncWrites is on. (2) The same kind of seeded workload in a real child process that SIGKILLs "
+               "GOMAXPROCS=1 the value log must not grow after a storage call has returned. (2) The same kind of seeded workload in a real child process that SIGKILLs "
                "itself at its N-th storage point (entry and completion of Fetch/Store/BatchStore), N swept over the workload by consecutive seeds; the parent holds the signatures announced "
                "on stdout, reopens the directory and requires coverage and refusal of every conflicting duty. (3) A child is traced with strace; from openat flags, writes and fsyncs a per-file "
                "durability model is built and, for every system-call boundary after the first released signature, images = durable prefix + {nothing, a write-back prefix, a torn prefix} of "
